@@ -52,7 +52,12 @@ def history(E, k, alphabet, obligations, contexts=True, sym_coef=True, with_ref=
                 if getattr(S, "ref", None) is not None:
                     S.ref.valid = False
         E.note(ops=[l[0] + ("!" + l[2] if l[2] else "") for l in S.log])
+        n0 = len(E.failures)
         obligations(E, m, S, "")
+        if len(E.failures) > n0:
+            return m, S         # a history that has violated the property is reported once, at that step, and not continued
+        if any(l[2] == "ContainerAlreadyContains" for l in S.log):
+            return m, S         # solver wedged by the listed optlang pending-queue finding (every later update raises): not continued
     return m, S
 
 
